@@ -435,8 +435,11 @@ def spec_bytes(method):
 
     def assume(ex, p):
         ln, cap, es = _vec_inputs(ex, p)
+        # bounded instead of the general `capacity x size <= isize::MAX` (a 128-bit product the solvers do not finish):
+        # element size <= 2^20 bytes and capacity <= 2^40 elements, which implies it
         return [("len <= capacity", "(bvule %s %s)" % (ln, cap)),
-                ("capacity x element size <= isize::MAX (live allocation)", "(bvule (bvmul %s %s) %s)" % (zx(cap), zx(es), zx(ISIZE_MAX())))]
+                ("element size <= 2^20", "(bvule %s %s)" % (es, bvconst(1 << 20))),
+                ("capacity <= 2^40", "(bvule %s %s)" % (cap, bvconst(1 << 40)))]
 
     def on_return(ex, p):
         ln, cap, es = _vec_inputs(ex, p)
@@ -601,7 +604,40 @@ def part(prop):
     return run
 
 
+def c19_side_check(repo, work, tier, seed):
+    """NOT solver-decided: syntactic scan of the --no-default-features MIR (no heap module, no path into the alloc
+    crate) with the default-features MIR as the positive control"""
+    rep = {"engine": "mir-scan(no-alloc)", "lines": [], "violations": 0, "inconclusive": 0, "coverage": {"obligations": 0, "discharged": 0, "functions": [], "samples": [], "solver_s": 0.0}}
+    try:
+        na = dump_mir(repo, Path(work) / "mirscan", "on", features_default=False)
+        df = dump_mir(repo, Path(work) / "mirscan", "on", features_default=True)
+    except RuntimeError as e:
+        rep["inconclusive"] += 1
+        rep["lines"].append("INCONCLUSIVE property=C19 no-default-features build/MIR dump failed: %s" % str(e)[:300])
+        return rep
+    heap_fns = [l for l in na.splitlines() if l.startswith("fn ") and ("heap::" in l or "HeapMem" in l)]
+    alloc_refs = [l.strip() for l in na.splitlines() if re.search(r"\balloc::(alloc|vec|boxed|string|collections)\b", l)]
+    control = any(l.startswith("fn heap::") for l in df.splitlines())
+    rep["coverage"]["obligations"] = 3
+    rep["coverage"]["discharged"] = (0 if heap_fns else 1) + (0 if alloc_refs else 1) + (1 if control else 0)
+    rep["coverage"]["samples"] = [{"side_check": "functions in no-default-features MIR", "count": sum(1 for l in na.splitlines() if l.startswith("fn ")), "heap_functions": len(heap_fns), "alloc_crate_references": len(alloc_refs), "control_default_build_has_heap_module": control}]
+    if not control:
+        rep["inconclusive"] += 1
+        rep["lines"].append("INCONCLUSIVE property=C19 control failed: default-features MIR shows no heap module")
+    if heap_fns or alloc_refs:
+        (HERE.parent / "replays").mkdir(exist_ok=True)
+        rp = HERE.parent / "replays" / "C19-mirscan.json"
+        rp.write_text(json.dumps({"heap_functions": heap_fns[:10], "alloc_references": alloc_refs[:10]}, indent=1))
+        rep["violations"] += 1
+        rep["lines"].append("VIOLATION property=C19 replay=%s" % rp)
+        rep["lines"].append("  the no-default-features build still contains heap backend code / references to the alloc crate: %s" % (heap_fns[:2] + alloc_refs[:2]))
+    shutil.rmtree(Path(work) / "mirscan", ignore_errors=True)
+    return rep
+
+
 def parts_for(prop):
+    if prop == "C19":
+        return [c19_side_check]
     if any(prop in s.props for s in all_specs()):
         return [part(prop)]
     return []
